@@ -399,8 +399,133 @@ fn s_update_accounting() -> Result<(), String> {
     Ok(())
 }
 
+/// inner / left joins against a nested-loop reference computed from the two tables' own rows
+fn s_join() -> Result<(), String> {
+    let m = Medium::new();
+    let mut p = Package::create(PackageType::Installer, m.clone()).map_err(|e| e.to_string())?;
+    p.create_table("L", cols()).map_err(|e| e.to_string())?;
+    p.create_table("R", vec![Column::build("Id").primary_key().int16(), Column::build("F").nullable().int32(), Column::build("T").nullable().string(0)])
+        .map_err(|e| e.to_string())?;
+    p.insert_rows(Insert::into("L").rows(vec![
+        vec![Value::Int(1), Value::from("one")],
+        vec![Value::Int(2), Value::Null],
+        vec![Value::Int(3), Value::from("three")],
+        vec![Value::Int(4), Value::from("four")],
+    ]))
+    .map_err(|e| e.to_string())?;
+    p.insert_rows(Insert::into("R").rows(vec![
+        vec![Value::Int(10), Value::Int(1), Value::from("a")],
+        vec![Value::Int(11), Value::Int(3), Value::from("b")],
+        vec![Value::Int(12), Value::Int(1), Value::Null],
+        vec![Value::Int(13), Value::Null, Value::from("d")],
+        vec![Value::Int(14), Value::Int(9), Value::from("e")],
+    ]))
+    .map_err(|e| e.to_string())?;
+    let all = |p: &mut Package<Medium>, sel: Select| -> Result<Vec<Vec<Value>>, String> {
+        let rows = p.select_rows(sel).map_err(|e| format!("select failed: {}", e))?;
+        Ok(rows.map(|r| (0..r.len()).map(|i| r[i].clone()).collect()).collect())
+    };
+    let l = all(&mut p, Select::table("L"))?;
+    let r = all(&mut p, Select::table("R"))?;
+    if l.len() != 4 || r.len() != 5 {
+        return Err("setup: base tables do not read back".into());
+    }
+    for left in [false, true] {
+        let on = Expr::col("L.K").eq(Expr::col("R.F"));
+        let sel = if left { Select::table("L").left_join(Select::table("R"), on) } else { Select::table("L").inner_join(Select::table("R"), on) };
+        let got = all(&mut p, sel)?;
+        let mut want: Vec<Vec<Value>> = Vec::new();
+        for a in &l {
+            let mut any = false;
+            for b in &r {
+                if a[0] == b[1] {
+                    want.push(a.iter().chain(b.iter()).cloned().collect());
+                    any = true;
+                }
+            }
+            if left && !any {
+                want.push(a.iter().cloned().chain(b_nulls(3)).collect());
+            }
+        }
+        if got != want {
+            return Err(format!("{} join returned {:?}, the nested-loop reference gives {:?}", if left { "left" } else { "inner" }, got, want));
+        }
+    }
+    Ok(())
+}
+
+fn b_nulls(n: usize) -> Vec<Value> {
+    vec![Value::Null; n]
+}
+
+/// catch_unwind without the default hook's "panicked at" output (the driver reads that as an uncaught panic)
+fn quiet_catch<T>(f: impl FnOnce() -> T) -> std::thread::Result<T> {
+    let hook = std::panic::take_hook();
+    std::panic::set_hook(Box::new(|_| {}));
+    let r = std::panic::catch_unwind(std::panic::AssertUnwindSafe(f));
+    std::panic::set_hook(hook);
+    r
+}
+
+/// projections keep the requested order; unknown names in projections and filters are errors
+fn s_select_names() -> Result<(), String> {
+    let m = Medium::new();
+    let mut p = Package::create(PackageType::Installer, m.clone()).map_err(|e| e.to_string())?;
+    p.create_table("L", vec![Column::build("K").primary_key().int32(), Column::build("S").nullable().string(0), Column::build("N").nullable().int16()])
+        .map_err(|e| e.to_string())?;
+    p.insert_rows(Insert::into("L").row(vec![Value::Int(1), Value::from("one"), Value::Int(7)])).map_err(|e| e.to_string())?;
+    {
+        let rows = p.select_rows(Select::table("L").columns(&["N", "K", "S"])).map_err(|e| e.to_string())?;
+        let names: Vec<String> = rows.columns().iter().map(|c| c.name().to_string()).collect();
+        let got: Vec<Vec<Value>> = rows.map(|r| (0..r.len()).map(|i| r[i].clone()).collect()).collect();
+        if names != ["N", "K", "S"] || got != vec![vec![Value::Int(7), Value::Int(1), Value::from("one")]] {
+            return Err(format!("projection N,K,S returned columns {:?} rows {:?}", names, got));
+        }
+    }
+    for (what, sel) in [
+        ("projection", Select::table("L").columns(&["K", "Nope"])),
+        ("projection", Select::table("L").columns(&["Nope", "K"])),
+        ("filter", Select::table("L").with(Expr::col("Nope").eq(Expr::integer(1)))),
+        ("filter", Select::table("L").with(Expr::col("K").eq(Expr::col("Nope")))),
+    ] {
+        let r = quiet_catch(|| p.select_rows(sel).map(|rows| rows.count()));
+        match r {
+            Err(_) => return Err(format!("a {} naming an unknown column panics instead of returning an error", what)),
+            Ok(Ok(n)) => return Err(format!("a {} naming an unknown column succeeds with {} rows", what, n)),
+            Ok(Err(_)) => {}
+        }
+    }
+    Ok(())
+}
+
+/// unknown names in a join condition are errors, not panics
+fn s_join_names() -> Result<(), String> {
+    let m = Medium::new();
+    let mut p = Package::create(PackageType::Installer, m.clone()).map_err(|e| e.to_string())?;
+    p.create_table("L", cols()).map_err(|e| e.to_string())?;
+    p.create_table("R", cols()).map_err(|e| e.to_string())?;
+    p.insert_rows(Insert::into("L").row(vec![Value::Int(1), Value::from("one")])).map_err(|e| e.to_string())?;
+    p.insert_rows(Insert::into("R").row(vec![Value::Int(1), Value::from("uno")])).map_err(|e| e.to_string())?;
+    for left in [false, true] {
+        for name in ["Nope", "K", "L.Nope", "X.K"] {
+            let on = Expr::col("L.K").eq(Expr::col(name));
+            let sel = if left { Select::table("L").left_join(Select::table("R"), on) } else { Select::table("L").inner_join(Select::table("R"), on) };
+            let r = quiet_catch(|| p.select_rows(sel).map(|rows| rows.count()));
+            match r {
+                Err(_) => return Err(format!("{} join whose condition names the unknown column {:?} panics instead of returning an error", if left { "left" } else { "inner" }, name)),
+                Ok(Ok(n)) => return Err(format!("join whose condition names the unknown column {:?} succeeds with {} rows", name, n)),
+                Ok(Err(_)) => {}
+            }
+        }
+    }
+    Ok(())
+}
+
 #[test]
 fn replay_protocol() {
+    report("join_names", s_join_names());
+    report("select_names", s_select_names());
+    report("join", s_join());
     report("update_accounting", s_update_accounting());
     report("gate", s_gate());
     report("streams", s_streams());
